@@ -32,7 +32,7 @@ Step(ev) ==
     [] ev.a = "emit"     -> EmitId(ev.arg.id, HR(ev.arg))
     [] ev.a = "emitmsg"  -> EmitMsg(ev.arg.data, HR(ev.arg))
     [] ev.a = "emitnone" -> EmitNone(HR(ev.arg))
-    [] ev.a = "hash"     -> HashEmit(ev.arg.cmd, ev.arg.sep, ev.arg.payload, ev.arg.split, HR(ev.arg))
+    [] ev.a = "hash"     -> HashEmit(ev.arg.cmd, ev.arg.sep, ev.arg.payload, ev.arg.cuts, HR(ev.arg))
     [] OTHER             -> FALSE
 
 Matches(ev) ==
